@@ -49,6 +49,8 @@ Clauses(p, o) ==
      <<"C15.NoRequestReachesHandlerOtherwise", o.handler_runs = (IF CallTransmitted(p) THEN 1 ELSE 0)>>,
      <<"C15.NeverPlaintext", o.first_bytes \in {"tls_client_hello", "none"}>>,
      <<"C15.VerifiedPeerCertsExposed", (o.handler_runs = 1) => ((o.peer_certs >= 1) <=> PeerCertsVisible(p))>>,
+     \* the two accessors a handler has (Request::peer_certs() and the TlsConnectInfo extension) say the same, including "none" (-1)
+     <<"C15.VerifiedPeerCertsExposed", (o.handler_runs = 1) => o.peer_certs = o.ext_certs>>,
      \* p.presented (optional field): digests of the certificates of the client's identity, in the order presented: what the handler is
      \* shown is that chain, whole and in order
      <<"C15.VerifiedPeerCertsExposed", (o.handler_runs = 1 /\ PeerCertsVisible(p) /\ "presented" \in DOMAIN p) => o.peer_digests = p.presented>> >>
